@@ -12,13 +12,15 @@
     condition relating the order to the renaming is needed, because a level that is not
     quantified is rebuilt with `ite(var, q, p)`.
   * `C13_image_refuses` — the two precondition checks of `image`.
-  * `C13_imageF_preimage`, `C13_preimage_partial` — `preimage` UNDER THE EXTRA HYPOTHESIS that the
-    target is independent of every value of the renaming (and: pairs adjacent, no two keys with
-    the same value).
-  * `C13_preimage_statement` / `C13_preimage_statement_false` — the statement without the
-    independence hypothesis is FALSE of the code (finding F5), by a concrete witness.
-  * `C13_preimage_needs_injective` — neither can "no two keys with the same value" be dropped
-    (finding F5b): `{a: b, c: b}` meets the other preconditions and gives a wrong result.
+  * `C13_preimage` — `preimage`, THE FULL STATEMENT: under the literal preconditions (declared
+    levels, keys disjoint from values, no undeclared name as a value) for ANY order, ANY renaming,
+    ANY target.  `_preimage_of` runs the fused recursion `_image` only when its test `fused` holds
+    (partners neighbours, no two keys with the same value, no value in the support of the target:
+    `C13_imageF_preimage` is the recursion's theorem under exactly these) and renames, conjoins,
+    quantifies otherwise.  `C13_preimage_statement_holds`: the statement that findings F5 / F5b
+    refuted for the code before the repair; the two witnesses are `example`s returning FALSE.
+  * `C13_preimage_partial`, `C13_preimage_any_order`, `C13_preimage_not_neighbours` — the
+    statements of the earlier rounds (instances of `C13_preimage`).
   * `C13_image_names`, `C13_preimage_names_partial`, `C13_rename_levels` — the same with the
     renaming and `qvars` given by name / by level.
   Every theorem is followed by a non-vacuity `example` on a concrete manager (`imgM`: `x < xp`;
@@ -567,10 +569,26 @@ example : ∀ fa, PreimagePost imgM3 1 2 [(.lvl 2, .lvl 0)] [.lvl 0] fa [0] := b
       simp [upd])
   exact h2
 
-/-- C13 (`preimage`), FULL statement — the same without the independence hypothesis.  It is
-FALSE of the code (`C13_preimage_statement_false`, finding F5); what is missing for a proof is
-not a lemma but a repair of `_image` (when the target depends on a rename target `x'` that is
-quantified, the descent meets `x'` twice: once as the image of `x`, once as itself). -/
+/-- C13 (`preimage`) — THE FULL STATEMENT (repair of findings F5 / F5b): under the literal
+preconditions alone (`PreimagePreAny`: pairs of declared levels, keys disjoint from values, no
+level renamed to an undeclared name) — ANY variable order, ANY renaming (two keys may share a
+value), ANY target (it may depend on the values of the renaming) — the result is
+`Q qvars. trans ∧ rename(target)`.  `_preimage_of` runs the fused recursion `_image` only when
+its test `fused` holds — partners neighbours, no two keys with the same value, no value in the
+support of the target: exactly the three hypotheses of `C13_preimage_partial`, under which the
+recursion is right — and renames, conjoins, quantifies otherwise
+(`C13_preimage_not_neighbours`' argument: `_copy_bdd` is a substitution). -/
+theorem C13_preimage (m : Mgr) (hI : Inv m) (hoff : m.lastLen = none)
+    (hV : VarsBij m.tbl) (trans target : Int) (hu : m.tbl.Mem trans) (hv : m.tbl.Mem target)
+    (rn : List (Key × Key)) (qvars : List Key) (fa : Bool) (q : List Nat)
+    (hq : mapToLevelE m.tbl qvars = .ok q) (hpre : PreimagePreAny m rn) :
+    PreimagePost m trans target rn qvars fa q :=
+  preimage_spec_full m hI hoff hV trans target hu hv rn qvars fa q hq hpre.nonempty
+    hpre.noOverlap hpre.noName hpre.levels
+
+/-- the statement of the earlier rounds (documented preconditions incl. "partners neighbours" and
+"no two keys with the same value"; no hypothesis on the target), which was FALSE of the code
+before the repair (findings F5, F5b) -/
 def C13_preimage_statement : Prop :=
   ∀ (m : Mgr), Inv m → m.lastLen = none → VarsBij m.tbl →
   ∀ (trans target : Int), m.tbl.Mem trans → m.tbl.Mem target →
@@ -578,146 +596,74 @@ def C13_preimage_statement : Prop :=
     mapToLevelE m.tbl qvars = .ok q → PreimagePre m rn →
     PreimagePost m trans target rn qvars fa q
 
-/-- C13 / F5: the witness.  Order `x < xp`; `trans = ¬x ∧ ¬xp`; `target = x xor xp`;
-`rename = {x: xp}`; `qvars = {xp}`; existential.  Documented meaning: `∃ xp. ¬x ∧ ¬xp ∧ (xp xor
-xp)` = FALSE.  The code returns `¬x`. -/
-theorem C13_preimage_statement_false : ¬ C13_preimage_statement := by
-  intro h
+/-- it holds now -/
+theorem C13_preimage_statement_holds : C13_preimage_statement :=
+  fun m hI hoff hV trans target hu hv rn qvars fa q hq hpre =>
+    C13_preimage m hI hoff hV trans target hu hv rn qvars fa q hq
+      ⟨hpre.nonempty, hpre.noOverlap, hpre.noName, hpre.levels⟩
+
+/-- the former F5 witness.  Order `x < xp`; `trans = ¬x ∧ ¬xp`; `target = x xor xp` (depends on
+the value `xp` of the renaming: the test `fused` fails); `rename = {x: xp}`; `qvars = {xp}`;
+existential.  Documented meaning: `∃ xp. ¬x ∧ ¬xp ∧ (xp xor xp)` = FALSE — and that is what the
+call returns (before the repair: `¬x`, `imgM_F5_run` is the run of the recursion `_image`). -/
+example : ∃ r m', preimage (-4) (-3) [(.lvl 0, .lvl 1)] [.lvl 1] false imgM = (.ok r, m') ∧
+    ∀ a, den m'.tbl r a = false := by
   have hres : resolveRename imgM.tbl [(.lvl 0, .lvl 1)] = [(.lvl 0, .lvl 1)] := by decide
   have hpairs : intPairs [(Key.lvl 0, Key.lvl 1)] = [(0, 1)] := by decide
   have hq : mapToLevelE imgM.tbl [.lvl 1] = .ok [1] := by rfl
-  have hpre : PreimagePre imgM [(.lvl 0, .lvl 1)] := by
-    refine ⟨fun _ => by rw [imgM_nvars']; omega, by rw [hres]; decide, by rw [hres]; decide,
-      ?_, ?_, ?_⟩
-    · intro p hp
-      rw [hres, hpairs] at hp
-      simp only [List.mem_singleton] at hp
-      subst hp
-      rw [imgM_nvars']
-      decide
-    · intro p hp
-      rw [hres, hpairs] at hp
-      simp only [List.mem_singleton] at hp
-      subst hp
-      decide
-    · intro p p' hp hp' _
-      rw [hres, hpairs] at hp hp'
-      simp only [List.mem_singleton] at hp hp'
-      rw [hp, hp']
-  obtain ⟨r, m', he, _, _, _, _, hd⟩ := h imgM imgM_inv rfl imgM_varsBij (-4) (-3)
+  have hpre : PreimagePreAny imgM [(.lvl 0, .lvl 1)] := by
+    refine ⟨fun _ => by rw [imgM_nvars']; omega, by rw [hres]; decide, by rw [hres]; decide, ?_⟩
+    intro p hp
+    rw [hres, hpairs] at hp
+    simp only [List.mem_singleton] at hp
+    subst hp
+    rw [imgM_nvars']
+    decide
+  obtain ⟨r, m', he, _, _, _, _, hd⟩ := C13_preimage imgM imgM_inv rfl imgM_varsBij (-4) (-3)
     (imgM_mem _ (by decide)) (imgM_mem _ (by decide)) [(.lvl 0, .lvl 1)] [.lvl 1] false [1]
     hq hpre
-  -- what the code returns
-  obtain ⟨r', c, m0, hrun, hden0⟩ := imgM_F5_run_ctx true
-  -- the decorated body runs with the context flag set; the flag is restored afterwards
-  obtain ⟨m'', hm'', hden⟩ : ∃ m'' : Mgr, m'' = { m0 with ctx := imgM.ctx } ∧
-      ∀ a, den m''.tbl r' a = !a 0 := ⟨_, rfl, hden0⟩
-  have hpre' : preimage (-4) (-3) [(.lvl 0, .lvl 1)] [.lvl 1] false imgM = (.ok r', m'') := by
-    rw [hm'']
-    apply preimage_of_body_ok imgM imgM_varsBij (-4) (-3) _ _ false [1] hq
-    show preimageBody (-4) (-3) [(.lvl 0, .lvl 1)] [.lvl 1] false (imgMc true) = _
-    unfold preimageBody
-    have hq' : mapToLevelE (imgMc true).tbl [.lvl 1] = .ok [1] := hq
-    have hres' : resolveRename (imgMc true).tbl [(.lvl 0, .lvl 1)] = [(.lvl 0, .lvl 1)] := hres
-    have hav : assertValidRename [(Key.lvl 0, Key.lvl 1)] (imgMc true) = (.ok (), imgMc true) :=
-      assertValidRename_ok (imgMc true) imgM_varsBij _
-        (fun _ => by rw [imgMc_nvars']; omega) (by decide)
-    have hfuel : 2 * (imgMc true).nvars + 4 = 8 := by rw [imgMc_nvars']
-    have hbk : badKeys [(Key.lvl 0, Key.lvl 1)] = [] := by decide
-    have hnbr : renameNeighbors [(Key.lvl 0, Key.lvl 1)] = true := by decide
-    simp only [hq', hres', hav, hnbr, if_true, hpairs, hbk, hfuel, hrun]
-  rw [hpre'] at he
-  have hr : r' = r := by
-    have := congrArg Prod.fst he
-    simpa using this
-  have hm : m'' = m' := congrArg Prod.snd he
-  subst hr hm
-  -- the code's answer is true where `x` is false; the documented meaning is false everywhere
-  have h1 : den m''.tbl r' (fun _ => false) = true := by rw [hden]; rfl
-  have h2 := (hd (fun _ => false)).mp h1
-  refine qsem_const_false false [1] _ _ ?_ h2
-  intro b
-  have hW := imgM_inv.wf.toWF
-  rw [den_neg imgM.tbl hW 3 _ (imgM_mem _ (by decide)), imgM_den3, hres, hpairs]
-  have e0 : renOf [(0, 1)] 0 = 1 := by decide
-  have e1 : renOf [(0, 1)] 1 = 1 := by decide
-  simp [e0, e1]
+  refine ⟨r, m', he, fun a => ?_⟩
+  cases hr : den m'.tbl r a with
+  | false => rfl
+  | true =>
+    exfalso
+    have h2 := (hd a).mp hr
+    refine qsem_const_false false [1] _ _ ?_ h2
+    intro b
+    have hW := imgM_inv.wf.toWF
+    rw [den_neg imgM.tbl hW 3 _ (imgM_mem _ (by decide)), imgM_den3, hres, hpairs]
+    have e0 : renOf [(0, 1)] 0 = 1 := by decide
+    have e1 : renOf [(0, 1)] 1 = 1 := by decide
+    simp [e0, e1]
 
-/-- C13: the hypothesis "no two keys with the same value" of `C13_preimage_partial` cannot be
-dropped.  Order `a < b < c`; `trans` = TRUE; `target = a ∧ ¬c` (independent of `b`);
-`rename = {a: b, c: b}` (partners adjacent, keys disjoint from values); `qvars = {b}`;
-existential.  Meaning: `∃ b. b ∧ ¬b` = FALSE.  The code returns TRUE. -/
-theorem C13_preimage_needs_injective :
-    ¬ (∀ (m : Mgr), Inv m → m.lastLen = none → VarsBij m.tbl →
-      ∀ (trans target : Int), m.tbl.Mem trans → m.tbl.Mem target →
-      ∀ (rn : List (Key × Key)) (qvars : List Key) (fa : Bool) (q : List Nat),
-        mapToLevelE m.tbl qvars = .ok q →
-        (resolveRename m.tbl rn ≠ [] → 0 < m.nvars) →
-        renameOverlap (resolveRename m.tbl rn) = false →
-        badKeys (resolveRename m.tbl rn) = [] →
-        (∀ p, p ∈ intPairs (resolveRename m.tbl rn) →
-          0 ≤ p.1 ∧ p.1 < (m.nvars : Int) ∧ 0 ≤ p.2 ∧ p.2 < (m.nvars : Int)) →
-        (∀ p, p ∈ intPairs (resolveRename m.tbl rn) → (p.1 - p.2).natAbs = 1) →
-        (∀ p, p ∈ intPairs (resolveRename m.tbl rn) → ∀ l : Nat, p.2 = (l : Int) →
-          ¬ dependsOn m.tbl target l) →
-        PreimagePost m trans target rn qvars fa q) := by
-  intro h
+/-- the former F5b witness.  Order `a < b < c`; `trans` = TRUE; `target = a ∧ ¬c`;
+`rename = {a: b, c: b}` (two keys with the same value: the test `fused` fails); `qvars = {b}`;
+existential.  Documented meaning: `∃ b. b ∧ ¬b` = FALSE — and that is what the call returns
+(before the repair: TRUE, `imgM3_noninj_run`). -/
+example : ∃ r m', preimage 1 (-3) [(.lvl 0, .lvl 1), (.lvl 2, .lvl 1)] [.lvl 1] false imgM3 =
+      (.ok r, m') ∧ ∀ a, den m'.tbl r a = false := by
   obtain ⟨hres, hpairs⟩ := C13_rename_levels imgM3.tbl [(0, 1), (2, 1)] (by simp)
   simp only [List.map] at hres hpairs
   have hq : mapToLevelE imgM3.tbl [.lvl 1] = .ok [1] := by rfl
   have hW := imgM3_inv.wf.toWF
-  have hov : renameOverlap [(Key.lvl 0, Key.lvl 1), (Key.lvl 2, Key.lvl 1)] = false := by decide
-  obtain ⟨r, m', he, _, _, _, _, hd⟩ := h imgM3 imgM3_inv rfl imgM3_varsBij 1 (-3)
+  have hpre : PreimagePreAny imgM3 [(.lvl 0, .lvl 1), (.lvl 2, .lvl 1)] := by
+    refine ⟨fun _ => by rw [imgM3_nvars']; omega, by rw [hres]; decide, by rw [hres]; decide, ?_⟩
+    rw [hres, hpairs]; intro p hp; simp at hp
+    rcases hp with rfl | rfl <;> (rw [imgM3_nvars']; decide)
+  obtain ⟨r, m', he, _, _, _, _, hd⟩ := C13_preimage imgM3 imgM3_inv rfl imgM3_varsBij 1 (-3)
     (mem_one _) (imgM3_mem _ (by decide)) [(.lvl 0, .lvl 1), (.lvl 2, .lvl 1)] [.lvl 1] false
-    [1] hq (fun _ => by rw [imgM3_nvars']; omega) (by rw [hres]; exact hov)
-    (by rw [hres]; decide)
-    (by
-      rw [hres, hpairs]; intro p hp; simp at hp
-      rcases hp with rfl | rfl <;> (rw [imgM3_nvars']; decide))
-    (by
-      rw [hres, hpairs]; intro p hp; simp at hp
-      rcases hp with rfl | rfl <;> decide)
-    (by
-      rw [hres, hpairs]; intro p hp l hl; simp at hp
-      have : l = 1 := by rcases hp with rfl | rfl <;> (simp only at hl; omega)
-      subst this
-      rintro ⟨a, hne⟩
-      apply hne
-      rw [den_neg imgM3.tbl hW 3 _ (imgM3_mem _ (by decide)),
-        den_neg imgM3.tbl hW 3 _ (imgM3_mem _ (by decide)), imgM3_den3, imgM3_den3]
-      simp [upd])
-  obtain ⟨r', c, m0, hrun, hden0⟩ := imgM3_noninj_run_ctx true
-  obtain ⟨m'', hm'', hden⟩ : ∃ m'' : Mgr, m'' = { m0 with ctx := imgM3.ctx } ∧
-      ∀ a, den m''.tbl r' a = true := ⟨_, rfl, hden0⟩
-  have hpre' : preimage 1 (-3) [(.lvl 0, .lvl 1), (.lvl 2, .lvl 1)] [.lvl 1] false imgM3 =
-      (.ok r', m'') := by
-    rw [hm'']
-    apply preimage_of_body_ok imgM3 imgM3_varsBij 1 (-3) _ _ false [1] hq
-    show preimageBody 1 (-3) [(.lvl 0, .lvl 1), (.lvl 2, .lvl 1)] [.lvl 1] false (imgM3c true) = _
-    unfold preimageBody
-    have hq' : mapToLevelE (imgM3c true).tbl [.lvl 1] = .ok [1] := hq
-    have hres' : resolveRename (imgM3c true).tbl [(.lvl 0, .lvl 1), (.lvl 2, .lvl 1)] =
-        [(.lvl 0, .lvl 1), (.lvl 2, .lvl 1)] := hres
-    have hav : assertValidRename [(Key.lvl 0, Key.lvl 1), (Key.lvl 2, Key.lvl 1)] (imgM3c true) =
-        (.ok (), imgM3c true) :=
-      assertValidRename_ok (imgM3c true) imgM3_varsBij _
-        (fun _ => by rw [imgM3c_nvars']; omega) hov
-    have hfuel : 2 * (imgM3c true).nvars + 4 = 10 := by rw [imgM3c_nvars']
-    have hbk : badKeys [(Key.lvl 0, Key.lvl 1), (Key.lvl 2, Key.lvl 1)] = [] := by decide
-    have hnbr : renameNeighbors [(Key.lvl 0, Key.lvl 1), (Key.lvl 2, Key.lvl 1)] = true := by decide
-    simp only [hq', hres', hav, hnbr, if_true, hpairs, hbk, hfuel, hrun]
-  rw [hpre'] at he
-  have hr : r' = r := by
-    have := congrArg Prod.fst he
-    simpa using this
-  have hm : m'' = m' := congrArg Prod.snd he
-  subst hr hm
-  have h2 := (hd (fun _ => false)).mp (hden _)
-  refine qsem_const_false false [1] _ _ ?_ h2
-  intro b
-  rw [den_neg imgM3.tbl hW 3 _ (imgM3_mem _ (by decide)), imgM3_den3, hres, hpairs]
-  have e0 : renOf [(0, 1), (2, 1)] 0 = 1 := by decide
-  have e2 : renOf [(0, 1), (2, 1)] 2 = 1 := by decide
-  simp [e0, e2]
+    [1] hq hpre
+  refine ⟨r, m', he, fun a => ?_⟩
+  cases hr : den m'.tbl r a with
+  | false => rfl
+  | true =>
+    exfalso
+    have h2 := (hd a).mp hr
+    refine qsem_const_false false [1] _ _ ?_ h2
+    intro b
+    rw [den_neg imgM3.tbl hW 3 _ (imgM3_mem _ (by decide)), imgM3_den3, hres, hpairs]
+    have e0 : renOf [(0, 1), (2, 1)] 0 = 1 := by decide
+    have e2 : renOf [(0, 1), (2, 1)] 2 = 1 := by decide
+    simp [e0, e2]
 
 end DD
